@@ -25,6 +25,8 @@ What IS proved, over the model of the compile path (`PepperModel/Comp.lean`, `Sy
     statements, by the `strand` statements and by the `structure` statements of the emitted specification.
     `prefix_disjoint`: full names under two instance prefixes `pfx ++ c1 ++ "-"`, `pfx ++ c2 ++ "-"` coincide only
     if `c1 = c2` (instance names contain no `-`: the system grammar's `var = Word(alphas, alphanums+"_")`).
+    `names_unique_tree`: uniqueness over the whole instance tree of a successfully loaded system, signal
+    sequences included.  `anon_equivariant_tree`: (a) for whole systems (`Sys.loadFile`).
 (c) `path_independent`: `Sys.loadFile` reads the bundle's file-existence information only through the
     probes it hands to `resolveImport`, and `resolveImport` consults the probe only at
     `<d>/<base>.sys`, `<d>/<base>.comp` for `d` in the search list (`import_probes_only`).
@@ -163,6 +165,45 @@ theorem import_probes_only (probe probe' : String → Bool) (base dir : String) 
     resolveImport probe base dir includes = resolveImport probe' base dir includes :=
   resolveImport_congr probe probe' base dir includes h
 
+/-! ### whole systems -/
+
+/-- (a) for an instance tree.  If every component source of the bundle has names not of the reserved form, then
+    loading any entry (any fuel, arguments, prefix, search path) at counter `a + k` is loading it at `a` with
+    `_Anon n ↦ _Anon (n + k)` applied to every local sequence name in every component of the tree and in the
+    signal tables of every system (`renameInst`), same failure otherwise, and the final counter shifted by `k`. -/
+theorem anon_equivariant_tree (b : Bundle)
+    (hu : ∀ key c, b.files.lookup key = some (.comp c) → UserNamesOk c)
+    (fuel : Nat) (base : String) (args : Nat) (key pfx path : String) (includes : List String) (a k : Nat) :
+    loadFile b fuel base args key pfx path includes (a + k) =
+      (loadFile b fuel base args key pfx path includes a).map (fun r => (renameInst (shift a k) r.1, r.2 + k)) :=
+  (loadFile_rename (shift_inj a k) (shift_renum a k) b (fun key c h => shift_fixes (hu key c h) a k)
+    fuel includes base args key pfx path a (Nat.le_refl _)).1
+
+/-- the statements emitted for the renamed tree are those of the original tree with every local sequence name
+    `x` written `ρ x` (`instStmtsWith ρ`; `instStmtsWith id` is `Emit.instStmts`) -/
+theorem emitted_equivariant_tree (ρ : String → String) (inst : Inst) :
+    Emit.instStmts (renameInst ρ inst) = instStmtsWith ρ inst ∧ instStmtsWith id inst = Emit.instStmts inst :=
+  ⟨instStmts_rename ρ inst, instStmtsWith_id inst⟩
+
+/-- the anonymous counter only grows -/
+theorem counter_monotone (b : Bundle) (fuel : Nat) (base : String) (args : Nat) (key pfx path : String)
+    (includes : List String) (a : Nat) {inst : Inst} {a' : Nat}
+    (h : loadFile b fuel base args key pfx path includes a = .ok (inst, a')) : a ≤ a' :=
+  (loadFile_rename (ρ := id) (fun _ _ h => h) (a0 := 0) (k := 0) (fun _ _ => rfl) b (fun _ _ _ _ _ => rfl)
+    fuel includes base args key pfx path a (Nat.zero_le _)).2 _ h
+
+/-- (b) for an instance tree.  If the instance names and signal names written in the system sources of the
+    bundle contain no `-` (`BundleDashFree`; the system grammar's identifiers are `Word(alphas, alphanums+"_")`),
+    then in the specification emitted for any successfully loaded entry no name is declared twice: not by the
+    `sequence` / `sup-sequence` statements (including the signal sequences of the systems), not by the `strand`
+    statements, not by the `structure` statements — over the whole tree. -/
+theorem names_unique_tree (b : Bundle) (hb : BundleDashFree b)
+    (fuel : Nat) (base : String) (args : Nat) (key pfx path : String) (includes : List String) (a : Nat)
+    {inst : Inst} {a' : Nat} (h : loadFile b fuel base args key pfx path includes a = .ok (inst, a')) :
+    (seqDeclNames (Emit.instStmts inst)).Nodup ∧ (strandDeclNames (Emit.instStmts inst)).Nodup ∧
+      (structDeclNames (Emit.instStmts inst)).Nodup :=
+  tree_names_nodup inst (loadFile_treeOk b hb fuel includes base args key pfx path a inst a' h).1
+
 /-! ### non-vacuity -/
 
 /-- a component with a named sequence and a strand with two anonymous regions -/
@@ -199,5 +240,47 @@ def badSrc : Src :=
 example : ¬ UserNamesOk badSrc := by decide
 example : (match Comp.load badSrc 0 "" 0 with | .ok _ => true | .error _ => false) = true := by decide +kernel
 example : (match Comp.load badSrc 0 "" 7 with | .ok _ => true | .error _ => false) = false := by decide +kernel
+
+/-- a system with two instances of the component above -/
+def topSrc : SSrc :=
+  { name := "top", params := [], inputs := [], outputs := [⟨"sig", false⟩],
+    stmts := [.imports [("T", none)],
+              .component "a" "T" 0 [⟨"sig", false⟩] [],
+              .component "b" "T" 0 [⟨"sig", true⟩] []] }
+
+def exBundle : Bundle :=
+  { files := [("top.sys@", .sys topSrc), ("T.comp@a", .comp exSrc), ("T.comp@b", .comp exSrc)],
+    exists_ := ["top.sys", "T.comp"] }
+
+/-- the hypotheses of the tree-level theorems hold for it: the component source has no reserved names … -/
+example : ∀ key c, exBundle.files.lookup key = some (.comp c) → UserNamesOk c := by
+  intro key c h
+  simp only [exBundle, List.lookup] at h
+  repeat' split at h
+  all_goals first
+    | (cases h; done)
+    | (injection h with h; injection h with h; subst h; decide)
+
+/-- … and the instance names `a`, `b` and the signal name `sig` contain no `-` -/
+example : BundleDashFree exBundle := by
+  intro key s h st hst
+  simp only [exBundle, List.lookup] at h
+  repeat' split at h
+  all_goals first
+    | (cases h; done)
+    | (injection h with h; injection h with h; subst h
+       simp only [topSrc, List.mem_cons, List.not_mem_nil, or_false] at hst
+       rcases hst with rfl | rfl | rfl
+       · trivial
+       · refine ⟨by unfold dashFree; decide, ?_⟩
+         intro g hg
+         simp only [List.append_nil, List.mem_singleton] at hg
+         subst hg
+         unfold dashFree; decide
+       · refine ⟨by unfold dashFree; decide, ?_⟩
+         intro g hg
+         simp only [List.append_nil, List.mem_singleton] at hg
+         subst hg
+         unfold dashFree; decide)
 
 end Pepper.C18
